@@ -36,9 +36,47 @@ def content_for(seed, length):
     return random.Random(seed).randbytes(max(0, length))
 
 
+_CRC_TABLE = []
+for _i in range(256):
+    _c = _i
+    for _ in range(8):
+        _c = (_c >> 1) ^ 0xEDB88320 if _c & 1 else _c >> 1
+    _CRC_TABLE.append(_c)
+_CRC_REV = {t >> 24: i for i, t in enumerate(_CRC_TABLE)}
+
+
+def force_zero_crc(data, pos):
+    """`data` with the four bytes before `pos` replaced so that zlib.crc32(data[:pos]) == 0 (a running CRC of exactly
+    zero at a read boundary is a falsy accumulator)"""
+    assert pos >= 4
+    reg = zlib.crc32(data[:pos - 4]) ^ 0xFFFFFFFF
+    want = 0xFFFFFFFF               # register value whose complement is 0
+    idxs = []
+    r = want
+    for _ in range(4):
+        i = _CRC_REV[r >> 24]
+        idxs.append(i)
+        r = ((r ^ _CRC_TABLE[i]) << 8) & 0xFFFFFFFF
+    idxs.reverse()
+    out = bytearray()
+    for i in idxs:
+        out.append(i ^ (reg & 0xFF))
+        reg = (reg >> 8) ^ _CRC_TABLE[i]
+    patched = data[:pos - 4] + bytes(out) + data[pos:]
+    assert zlib.crc32(patched[:pos]) == 0
+    return patched
+
+
+def written_content(case):
+    data = content_for(case["seed"], case["len"])
+    for pos in case.get("zero_at", []):
+        data = force_zero_crc(data, pos)
+    return data
+
+
 def content_of(case):
     """the bytes a reader gets: the written data, plus the zeros of a hole the file was extended by"""
-    return content_for(case["seed"], case["len"]) + b"\0" * case.get("hole", 0)
+    return written_content(case) + b"\0" * case.get("hole", 0)
 
 
 # ------------------------------------------------------------------ chunk loop
@@ -119,6 +157,9 @@ def gen_tags(rng, n, tier):
     # sparse files: extended by truncate() (a trailing hole), or one big hole
     for l, hole in ((10, 100_000), (cs, cs), (0, 70_000), (3 * cs + 5, 1)):
         cases.append({"len": l, "seed": rng.randrange(1 << 30), "hole": hole})
+    # a running CRC of exactly zero at a read boundary, and a whole-file CRC of zero (forged contents)
+    for l, zs in ((2 * cs, [2 * cs]), (2 * cs + 5, [cs]), (3 * cs + 1, [cs, 2 * cs]), (cs, [cs]), (5 * cs, [3 * cs, 5 * cs]), (9, [9])):
+        cases.append({"len": l, "seed": rng.randrange(1 << 30), "zero_at": zs})
     while len(cases) < n:
         cases.append({"len": rng.choice([rng.randint(0, 64), rng.randint(0, 3 * cs + 10), max(0, rng.randint(cs - 3, cs + 3))]),
                       "seed": rng.randrange(1 << 30)})
@@ -130,7 +171,7 @@ def impl_tags(case):
     data = content_of(case)
     with common.Sandbox() as root:
         p = root / "f.bin"
-        p.write_bytes(content_for(case["seed"], case["len"]))
+        p.write_bytes(written_content(case))
         if case.get("hole"):
             os.truncate(p, case["len"] + case["hole"])
         os.utime(p, ns=(1_000_000_000, 1_000_000_000))
